@@ -208,6 +208,8 @@ class Ctx:
                 self.known_printed.append(key)
                 print("KNOWN-FINDING: property=%s %s" % (self.prop, f["what"]))
             return
+        if any(v["key"] == key for v in self.violations):
+            return   # one replay per kind of failure is enough
         os.makedirs(os.path.join(VERIF, "replay"), exist_ok=True)
         n = len(self.violations)
         path = os.path.join(VERIF, "replay", "%s-%d.json" % (self.prop, n))
